@@ -329,7 +329,18 @@ pub fn storm_spec(rng: &mut Rng, ctr: &mut u64) -> ReqSpec {
             } else {
                 ReqSpec::Valid { proto: P::Classic, size: size as u16, nonce_seed: *ctr, srv: SrvMode::Absent, vers: vec![] }
             };
-            let muts = match rng.below(8) {
+            let muts = match rng.below(10) {
+                // one protocol's field inside the other protocol's request: a classic request that
+                // names IETF versions or a server, an IETF request with response-only tags
+                8 | 9 => {
+                    let (tag, value): (u32, Vec<u8>) = match rng.below(5) {
+                        0 | 1 => (r::VER, r::VER_DRAFT13.to_le_bytes().to_vec()),
+                        2 => (r::VER, [7u32.to_le_bytes(), r::VER_DRAFT13.to_le_bytes()].concat()),
+                        3 => (r::SRV, vec![0x5a; 32]),
+                        _ => (r::INDX, 1u32.to_le_bytes().to_vec()),
+                    };
+                    vec![Mutation::PutField { tag, value }]
+                }
                 0..=2 => vec![Mutation::SwapFields(rng.below(4) as u8, rng.below(4) as u8)],
                 3 => vec![Mutation::RepeatField(rng.below(4) as u8)],
                 // a well-formed message without one of its fields (NONC, VER, the padding)
